@@ -187,7 +187,7 @@ func (m *clm) addArg(t string, i int, passthrough bool) bool {
 	if len(m.queue) > 0 {
 		a := m.queue[0]
 		if a.Type.IsSlice() {
-			v := ConvScalar(a.Type.RT.Elem(), 10, t)
+			v := ConvScalar(a.Type.RT.Elem(), a.BaseN(), t)
 			if v.Class == Grey {
 				m.res.Grey = true
 			}
@@ -196,7 +196,7 @@ func (m *clm) addArg(t string, i int, passthrough bool) bool {
 				return false
 			}
 		} else {
-			v := ConvScalar(a.Type.RT, 10, t)
+			v := ConvScalar(a.Type.RT, a.BaseN(), t)
 			if v.Class == Grey {
 				m.res.Grey = true
 			}
@@ -778,4 +778,33 @@ func (r *Result) CheckInvariants(argv []string) string {
 		return "execute implies no fault"
 	}
 	return ""
+}
+
+// FaultSet returns the first fault of argv and then, repeatedly, the first fault of the vector with the
+// previous faulty unit removed: every independent reason the vector gives for rejection (at most 4).
+// No property fixes which of several simultaneous causes is reported.
+func FaultSet(cfg *Config, argv []string) []*Fault {
+	var out []*Fault
+	cur := append([]string{}, argv...)
+	for i := 0; i < 4; i++ {
+		res := Run(cfg, cur)
+		if res.Fault == nil {
+			break
+		}
+		out = append(out, res.Fault)
+		f := res.Fault
+		if f.At < 0 || f.At >= len(cur) {
+			break // end-of-line faults (required, command): nothing to remove
+		}
+		span := f.Span
+		if span < 1 {
+			span = 1
+		}
+		end := f.At + span
+		if end > len(cur) {
+			end = len(cur)
+		}
+		cur = append(append([]string{}, cur[:f.At]...), cur[end:]...)
+	}
+	return out
 }
